@@ -446,9 +446,14 @@ def run_safety(ctx, n=None, beh=None, inputs=None, label="MarkupSafetyTrace (arb
                 uniq.append(e)
         for e in uniq:
             raw = bytes.fromhex(e["hex"])
-            ctx.violation({"kind": e["kind"], "hex": e["hex"]},
-                          "[%d%s input(s) of this class] ParseMarkup(%r): %s (outcome %s, text of %d characters, attribute ranges %s, TextForAttribute panics %s)"
-                          % (len(evs), "+" if len(res["bad"]) >= 1000 else "", raw.decode("utf-8", "backslashreplace"), what,
+            payload = {"kind": e["kind"], "hex": e["hex"]}
+            later = ""
+            if e.get("then"):
+                payload["then"] = e["then"]
+                later = " - looked at again after the same parser had parsed %r" % bytes.fromhex(e["then"]).decode("utf-8", "backslashreplace")
+            ctx.violation(payload,
+                          "[%d%s input(s) of this class] ParseMarkup(%r)%s: %s (outcome %s, text of %d characters, attribute ranges %s, TextForAttribute panics %s)"
+                          % (len(evs), "+" if len(res["bad"]) >= 1000 else "", raw.decode("utf-8", "backslashreplace"), later, what,
                              e["outcome"], e["textLen"], e["attrs"], e["tfa"]),
                           signature="markup-safety:" + what)
     st["results"] = res["results"]
